@@ -72,7 +72,7 @@ def literal(c):
         return "a{{b}}" if lit["post"] else "ab"
     named = c["named"]
     f0 = fa(c) if named else "_0"
-    ref = {"next": "", "pos0": "0", "pos1": "1", "pos2": "2", "name_field": f0, "name_other": "v"}[lit["ref"]]
+    ref = {"next": "", "pos0": "0", "pos1": "1", "pos2": "2", "pos_wrap0": "18446744073709551616", "name_field": f0, "name_other": "v"}[lit["ref"]]
     spec = MOD[lit["mod"]] + LETTER[lit["ty"]]
     colon = ":" if (spec or lit["mod"] in ("colon", "colon_ws")) else ""
     ph = "{" + ref + colon + spec + (" " if lit["mod"] in ("ws", "colon_ws") else "") + "}"
